@@ -95,7 +95,11 @@ pub struct Violation {
 #[derive(Clone, Debug, Default, Serialize, Deserialize)]
 pub struct Report {
     pub evaluations: u64,
+    /// distinct non-trivial cases (hashes; capped per worker, so a conservative count on very long runs)
     pub nontrivial: HashSet<u64>,
+    /// evaluations that were non-trivial (not de-duplicated, not capped): used by the health check
+    #[serde(default)]
+    pub nontrivial_evals: u64,
     pub classes: BTreeMap<String, u64>,
     pub samples: Vec<Json>,
     pub violations: Vec<Violation>,
@@ -126,6 +130,7 @@ impl Report {
     pub fn merge(&mut self, o: Report) {
         self.evaluations += o.evaluations;
         self.nontrivial.extend(o.nontrivial);
+        self.nontrivial_evals += o.nontrivial_evals;
         for (k, v) in o.classes {
             *self.classes.entry(k).or_insert(0) += v;
         }
@@ -337,6 +342,7 @@ where
             let mut rep = reprc.borrow_mut();
             rep.evaluations += 1;
             if let Some(h) = obs.nontrivial {
+                rep.nontrivial_evals += 1;
                 if rep.nontrivial.len() < 400_000 {
                     rep.nontrivial.insert(h);
                 }
